@@ -4,6 +4,22 @@ import json, subprocess
 REPO_HEAD = subprocess.run(["git","-C","/repo","rev-parse","--short","HEAD"],capture_output=True,text=True).stdout.strip()
 
 CHECKS = {
+ "C01": ("bounded-exhaustive generation of abstract documents (skeleton + <=k decorations) x all renderings within k' surface deviations; conformance replay against the expected infoset computed from the model, in xml_info, raw DOM and merged-text DOM views",
+         "Every abstract document of a small-scope universe (all element trees up to the bound, every subset of <= 2 decorations from ~130 content/attribute/prolog/DTD items) is rendered in every spelling within the surface-deviation bound, parsed by the real crates three ways, and its complete observation compared with the information set computed from the abstract document; an independent recogniser first confirms each rendering is well-formed.",
+         "Trusts the reference semantics in mc/src/model/adoc.rs (entity replacement, attribute normalisation) and the observation code in mc/src/obs.rs; line-end normalisation (XML 2.11) is not demanded (no CR in the alphabet); documents beyond the bounds are not covered.",
+         "DESIGN.md §5 C01"),
+ "C02": ("bounded-exhaustive token-edit neighbourhoods (distance 1; thorough: 2) of ~60 seed documents + catalogue of semantic violations, classified by an independent reference recogniser",
+         "Every string within the edit bound of every seed is classified by the reference well-formedness recogniser; for every string it finds ill-formed the real parser + infoset builder must not answer Ok with empty rest.",
+         "Trusts mc/src/model/wf.rs as the definition of XML 1.0 well-formedness for documents without parameter entities; strings using PEs are not judged; only over-acceptance is judged.",
+         "DESIGN.md §5 C02"),
+ "C03": ("supervised exhaustive sweeps: all token strings up to length L over 18 markup tokens, edit neighbourhoods, unsupported-construct catalogue, hostile shape families with growing sizes; each case in a worker process with crash/hang attribution",
+         "Every enumerated input is pushed through parse, infoset construction, a full accessor walk, Display and pretty() in supervised worker processes; any panic, abort (stack overflow), hang or super-polynomial time growth is attributed to the exact input.",
+         "Time verdicts are caps with large head-room, reported as caps; sizes beyond the listed family sizes are not covered; the worker has the default 8 MiB main-thread stack.",
+         "DESIGN.md §5 C03"),
+ "C04": ("bounded-exhaustive: every accepted document of the C01 universe and of the C02 edit neighbourhood is printed, re-parsed and compared (harness observation + crate PartialEq + printer fixpoint)",
+         "For every document the implementation accepts in the enumerated spaces, the compact serialization must be accepted completely, denote an equal document by two independent equality notions, and be a fixpoint of the printer.",
+         "Equality is judged by mc/src/obs.rs dumps and by the crate's own PartialEq; documents outside the enumerated spaces are not covered.",
+         "DESIGN.md §5 C04"),
  # id: (technique, level text, level note, design_ref)
  "C18": ("total enumeration of all 1,114,112 scalar values + bounded-exhaustive name strings (len<=3/4 over 30 class representatives) in 8 syntactic positions, against transcribed tables",
          "Every Unicode scalar value is classified by the five public predicates and compared with tables transcribed from the Recommendation (complete, no bound); every short string over class representatives and range boundaries is offered as a name in every syntactic position and accept/reject compared with reference Name/NCName/QName matchers.",
